@@ -1,7 +1,7 @@
 /-
-Readings of the translated values used by the end-to-end corollaries (KlogV/Props/GoSpec.lean).  Core Lean only.
+Readings of the translated time values used by the end-to-end corollaries (KlogV/Props/GoSpec16.lean).  Core Lean only.
 -/
-import KlogV.GoSem.AbsCal
+import KlogV.GoSem.Abs
 namespace KlogV.GoTie
 open KlogV.Go
 
@@ -12,14 +12,6 @@ def goTimeOffset (t : GoSrc.time) : Int := t.dayShift * 1440 + t.hour * 60 + t.m
 def GoTimeWF (t : GoSrc.time) : Prop :=
   0 ≤ t.hour ∧ t.hour < 24 ∧ 0 ≤ t.minute ∧ t.minute < 60 ∧ (t.dayShift = -1 ∨ t.dayShift = 0 ∨ t.dayShift = 1)
 
-/-- a translated date of the calendar -/
-def GoDateValid (x : GoCal.date) : Prop :=
-  0 ≤ x.year ∧ x.year ≤ 9999 ∧ 1 ≤ x.month ∧ x.month ≤ 12 ∧ 1 ≤ x.day ∧ x.day ≤ daysInInt x.year x.month
-
-/-- its day number (0000-01-01 ↦ 0) -/
-def goDayNumber (x : GoCal.date) : Int := dayNumber ⟨x.year.toNat, x.month.toNat, x.day.toNat, true⟩
-
 instance (t : GoSrc.time) : Decidable (GoTimeWF t) := by unfold GoTimeWF; infer_instance
-instance (x : GoCal.date) : Decidable (GoDateValid x) := by unfold GoDateValid; infer_instance
 
 end KlogV.GoTie
